@@ -17,6 +17,9 @@ if not b:
 ok, msg = units_e2e.regen_table()
 if not ok:
     print(msg)   # the C12 check reports this as a broken obligation; keep going with the committed table
+ra = units_e2e.regen_arm_table()   # request arms of the wait loops regenerated from the source (DESIGN 11.2e)
+if not ra["ok"]:
+    print("\n".join(ra["errors"]))   # reported as broken obligations by C09 - C12
 import gen_tie
 rg = gen_tie.regen()   # decision functions regenerated from the source (DESIGN 11.7)
 if not rg["ok"]:
